@@ -43,9 +43,12 @@ Focus(FragMode) ==
       [] FragMode = "comment2" -> [pre |-> <<60,33,45,45>>, fr |-> {<<45>>, <<97>>, <<45,45,62>>, <<62>>}]     \* hyphen runs inside a closed comment
       [] FragMode = "cdata"   -> [pre |-> <<60,33,91,67,68,65,84,65,91>>, fr |-> {<<93>>, <<62>>, <<97>>, <<91>>, <<60>>}]
       [] FragMode = "pi"      -> [pre |-> <<60,63>>, fr |-> {<<63>>, <<62>>, <<97>>, <<120,109,108>>, <<32>>}]
+      \* every kind of white space (TAB LF CR) and the look-alike that is none for XML (FF) inside start tags, end tags,
+      \* processing instructions and text
+      [] FragMode = "ws"      -> [pre |-> <<60,97>>, fr |-> {<<9>>, <<10>>, <<13>>, <<12>>, <<62>>, <<47>>, <<60,47,97>>, <<120>>, <<60,63,112>>, <<63,62>>}]
       [] OTHER                -> [pre |-> <<60,97>>, fr |-> {<<34>>, <<39>>, <<62>>, <<47>>, <<61>>, <<32>>, <<97>>}]      \* "tag"
 InputsOf(FragMode, K) ==
-    IF FragMode \in {"doctype", "comment", "comment2", "cdata", "pi", "tag"}
+    IF FragMode \in {"doctype", "comment", "comment2", "cdata", "pi", "tag", "ws"}
     THEN {Focus(FragMode).pre \o x : x \in Strs(Focus(FragMode).fr, K)}
     ELSE Strs(Frags(FragMode), K) \cup Seeds
 
